@@ -28,6 +28,14 @@ def run(specs, tier):
         try:
             mod = importlib.import_module(modname)
             for (name, assumptions, goal) in getattr(mod, fn)():
+                # vacuity: the hypotheses of a lemma must be satisfiable
+                sv = z3.Solver()
+                sv.set("timeout", 5000)
+                sv.add(*assumptions)
+                if sv.check() == z3.unsat:
+                    r["obligations"].append({"name": "%s:%s/%s" % (r["file"], fn, name), "kind": "LEMMA", "status": "unknown",
+                                             "backend": None, "time_s": 0, "output": "hypotheses unsatisfiable (vacuous lemma)"})
+                    continue
                 ob = _Ob("%s:%s/%s" % (r["file"], fn, name), list(assumptions), goal)
                 solve.discharge(ob, 20 if tier == "quick" else 90, use_cvc5=False)
                 if ob.status == "unknown":
